@@ -12,31 +12,39 @@ from core import proto
 from .common import case, ordinal_instance, strict, rand_perm
 
 ID = "C04"
-RULE = ("exhaustive: every set of distinct strict orders over 3 alternatives (2^6 subsets) and over 4 alternatives "
-        "with n <= 4 (quick) / n <= 5 (thorough) distinct orders, each in two storage orders (sorted, reversed) plus "
-        "one random shuffle; random: swap-walk single-crossing sequences (m <= 6, n <= 7) shuffled, with and without "
+RULE = ("exhaustive: every set of distinct strict orders over 3 alternatives (2^6 subsets, ids 0..2 and 1..3) in EVERY "
+        "storage order; over 4 alternatives every set of n <= 4 (quick) / n <= 5 (thorough) distinct orders, in every "
+        "storage order for n <= 3 (quick) / n <= 4 (thorough), else sorted, reversed and one random shuffle; "
+        "single-crossing chains (maximal and sub-chains, m <= 8) stored with every choice of the first two stored "
+        "orders (first stored order in the middle of the chain, tails of different lengths, n < m and n >= m); "
+        "switch-back profiles (a chain plus an order beyond its end that switches back a pair switched before the first "
+        "stored order: every single order is compatible with the first two stored orders); random: swap-walk single-crossing sequences (m <= 6, n <= 7) shuffled, with and without "
         "one off-sequence order, 'stars' (a sequence plus two or three adjacent-swap neighbours of one member, m <= 8, "
-        "n <= 15: score ties), uniformly random sets of orders (m <= 6, n <= 7); large planted single-crossing profiles (m <= 12, "
+        "n <= 15: score ties), uniformly random sets of orders (m <= 6, n <= 7), a block dedicated to the n < m path "
+        "(m in 5..8, 3 <= n < m: walks, walk+1, stars, orders near a common base); large planted single-crossing profiles (m <= 12, "
         "n <= 40) and large negatives (planted profile + embedded refuted core). "
         "non-trivial = at least 3 distinct orders")
-EXHAUSTIVE = {"quick": "all subsets of the 6 orders over 3 alternatives; all sets of <= 4 distinct orders over 4 "
-                       "alternatives; x {sorted, reversed, shuffled} storage order; all sets of <= 2 orders over 5 "
-                       "alternatives in both storage orders",
-              "thorough": "all subsets of the 6 orders over 3 alternatives; all sets of <= 5 distinct orders over 4 "
-                          "alternatives; x {sorted, reversed, shuffled} storage order; all sets of <= 2 orders over "
-                          "5 alternatives in both storage orders"}
+EXHAUSTIVE = {"quick": "m=3: all subsets of the 6 orders in every storage order (ids 0..2 and 1..3); m=4: all sets of "
+                       "<= 4 distinct orders, every storage order for n <= 3, {sorted, reversed, shuffled} for n = 4; "
+                       "m=5: all sets of <= 2 orders in both storage orders",
+              "thorough": "m=3: all subsets of the 6 orders in every storage order (ids 0..2 and 1..3); m=4: all sets "
+                          "of <= 5 distinct orders, every storage order for n <= 4, {sorted, reversed, shuffled} for "
+                          "n = 5; m=5: all sets of <= 2 orders in both storage orders"}
 TRUSTED = ["(R) not mirrored: the Kendall-tau scoring / sort / bucket strategy of is_single_crossing and the set "
            "manipulation of is_single_crossing_conflict_sets; they are compared with the proved references "
            "c04.decide (n <= 7) and c04.cdecide (all generated sizes) and the returned sequence is checked by the "
            "verified checker c04.check at every size",
            "OrdinalInstance.flatten_strict (tuple of the single member of each class) is used as is"]
 ASSUMPTIONS = ["profiles are duplicate-free lists of strict complete orders over the alternatives of the instance "
-               "(data type soc), at least one order; alternatives are positive integers; multiplicities arbitrary >= 1"]
+               "(data type soc), at least one order; alternatives are non-negative integers; multiplicities arbitrary >= 1"]
+THEOREMS_FOR_OP = {
+    "c04.decide": "sc_decide_correct / sc_conflict_decide_correct (verdict), sc_witness_check_correct (sequence)",
+    "c04.core": "sc_core_refutes_sound (sc_sub: heredity), sc_conflict_decide_correct",
+}
 TIMEOUT_S = 60.0
-CHUNK = 25
+CHUNK = 200
 
 BRUTE_MAX_N = 7          # c04.decide enumerates n! arrangements
-CONFLICT_IMPL_MAX = 14   # is_single_crossing_conflict_sets is O(n^3 m^3) in Python: only called up to this n
 
 
 # ------------------------------------------------------------------------------------------------ generators
@@ -79,6 +87,58 @@ def star(rng, orders, m, k=2):
             if added == k:
                 break
     return orders
+
+
+def max_chain(rng, alts):
+    """a maximal single-crossing chain: single adjacent swaps of pairs not swapped before, until the start order is
+    reversed (always m(m-1)/2 + 1 orders)"""
+    cur = rand_perm(rng, alts)
+    seq = [list(cur)]
+    used = set()
+    while True:
+        cands = [i for i in range(len(cur) - 1) if frozenset((cur[i], cur[i + 1])) not in used]
+        if not cands:
+            return seq
+        i = rng.choice(cands)
+        used.add(frozenset((cur[i], cur[i + 1])))
+        cur[i], cur[i + 1] = cur[i + 1], cur[i]
+        seq.append(list(cur))
+
+
+def sub_chain(rng, chain, n):
+    idx = sorted(rng.sample(range(len(chain)), min(n, len(chain))))
+    return [chain[i] for i in idx]
+
+
+def stored_with_first_two(rng, chain, i, j, how):
+    rest = [o for k, o in enumerate(chain) if k not in (i, j)]
+    if how == 1:
+        rest = rest[::-1]
+    elif how == 2:
+        rng.shuffle(rest)
+    return [chain[i], chain[j]] + rest
+
+
+def disagree(o1, o2):
+    pos1 = {a: k for k, a in enumerate(o1)}
+    pos2 = {a: k for k, a in enumerate(o2)}
+    return {frozenset((a, b)) for a in o1 for b in o1 if a != b and (pos1[a] < pos1[b]) != (pos2[a] < pos2[b])}
+
+
+def switchback(rng, chain, i, j):
+    """chain c_0..c_L single-crossing, v1 = c_i, v2 = c_j (1 <= i < j): add an order past the end of the chain that
+    switches BACK an (adjacent) pair which already switched between c_0 and c_i.  Every order taken alone is
+    compatible with v1, v2 (the Kendall-tau distances to v1 and v2 are additive), the violation only shows in the
+    verification of the whole sequence.  Returns the extra order or None."""
+    before = disagree(chain[0], chain[i])
+    last = chain[-1]
+    cands = [k for k in range(len(last) - 1) if frozenset((last[k], last[k + 1])) in before]
+    if not cands:
+        return None
+    k = rng.choice(cands)
+    x = list(last)
+    x[k], x[k + 1] = x[k + 1], x[k]
+    return x if x not in chain else None
 
 
 def mults(rng, n, heavy):
@@ -132,19 +192,26 @@ def generate(tier, seed):
     rng = random.Random(1000003 * seed + 4)
     quick = tier == "quick"
     out = []
-    # ---- exhaustive m = 3: all 2^6 - 1 non-empty sets of orders
-    alts3 = [1, 2, 3]
-    P3 = [list(p) for p in itertools.permutations(alts3)]
-    for k in range(1, 7):
-        for sub in itertools.combinations(P3, k):
-            out.extend(storage_variants(rng, alts3, sub, exh=1))
-    # ---- exhaustive m = 4
+    # ---- exhaustive m = 3: all 2^6 - 1 non-empty sets of orders, in EVERY storage order (1956 lists);
+    #      alternatives 0,1,2 (id 0 included) and 1,2,3
+    for alts3 in ([0, 1, 2], [1, 2, 3]):
+        P3 = [list(p) for p in itertools.permutations(alts3)]
+        for k in range(1, 7):
+            for sub in itertools.combinations(P3, k):
+                for st in itertools.permutations(sub):
+                    out.append(mk(alts3, st, exh=1, storage="all"))
+    # ---- exhaustive m = 4: every storage order for n <= 3 (thorough: n <= 4); three storage orders beyond
     alts4 = [1, 2, 3, 4]
     P4 = [list(p) for p in itertools.permutations(alts4)]
     nmax = 4 if quick else 5
+    nall = 3 if quick else 4
     for k in range(1, nmax + 1):
         for sub in itertools.combinations(P4, k):
-            out.extend(storage_variants(rng, alts4, sub, exh=1))
+            if k <= nall:
+                for st in itertools.permutations(sub):
+                    out.append(mk(alts4, st, exh=1, storage="all"))
+            else:
+                out.extend(storage_variants(rng, alts4, sub, exh=1))
     for k, cnt in ((5, 600), (6, 300), (7, 100)) if quick else ((6, 4000), (7, 1500)):
         for _ in range(cnt):
             sub = rng.sample(P4, k)
@@ -223,6 +290,90 @@ def generate(tier, seed):
     for _ in range(1500 if quick else 20000):
         sub = rng.sample(P5, rng.randint(3, 7))
         out.append(mk(alts5, sub, gen="random"))
+    # ---- chains stored with the first stored order in the middle: every choice of the first two stored orders for
+    #      chains of <= 7 orders (maximal chains of 4 alternatives have 7), sampled choices beyond; sub-chains give
+    #      n < m and n >= m and tails of different lengths on the two sides of the first stored order
+    nchain = 12 if quick else 120
+    for m in (3, 4, 5, 6, 7, 8):
+        alts = list(range(1, m + 1)) if m % 2 == 0 else list(range(0, m))
+        for ci in range(nchain if m <= 6 else max(2, nchain // 3)):
+            full = max_chain(rng, alts)
+            sizes = sorted(set([3, 4, 5, 6, 7, m - 1, m, m + 1, len(full)]))
+            for nn in sizes:
+                if nn < 3 or nn > len(full):
+                    continue
+                ch = full if nn == len(full) else sub_chain(rng, full, nn)
+                L = len(ch)
+                if L <= 7:
+                    choices = [(i, j) for i in range(L) for j in range(L) if i != j]
+                else:
+                    choices = [(rng.randint(1, L - 2), None) for _ in range(10)]
+                    choices = [(i, rng.choice([k for k in range(L) if k != i])) for i, _ in choices]
+                for (i, j) in choices:
+                    st = stored_with_first_two(rng, ch, i, j, (i + j + ci) % 3)
+                    out.append(mk(alts, st, mults(rng, L, (i + j) % 2 == 0), gen="chain-mid",
+                                  first_mid=int(0 < i < L - 1), tails="%d/%d" % (min(i, L - 1 - i), max(i, L - 1 - i))))
+    # ---- switch-backs: not single-crossing although every order is compatible with the first two stored orders
+    nsb = 600 if quick else 6000
+    made = 0
+    tries = 0
+    while made < nsb and tries < 20 * nsb:
+        tries += 1
+        m = rng.randint(3, 7)
+        alts = list(range(1, m + 1))
+        full = max_chain(rng, alts)
+        L = rng.randint(3, min(len(full) - 1, 9))
+        # a prefix-free window of the maximal chain, so that there is room past its end
+        ch = sub_chain(rng, full[:-1], L)
+        if len(ch) < 3:
+            continue
+        i = rng.randint(1, len(ch) - 2)
+        j = rng.randint(i + 1, len(ch) - 1)
+        x = switchback(rng, ch, i, j)
+        if x is None:
+            continue
+        st = stored_with_first_two(rng, ch + [x], i, j, tries % 3)
+        if tries % 2:
+            # mirror image: v1 = c_j, v2 = c_i; the extra order is then 'before v1', the pair switches 'after v2'
+            st[0], st[1] = st[1], st[0]
+        out.append(mk(alts, st, mults(rng, len(st), tries % 2 == 0), gen="switchback"))
+        made += 1
+    # ---- the n < m path with both verdicts: m in 5..8, 3 <= n < m
+    nlt = 1500 if quick else 15000
+    for i in range(nlt):
+        m = rng.randint(5, 8)
+        alts = list(range(1, m + 1))
+        n = rng.randint(3, m - 1)
+        kind = i % 4
+        if kind == 0:
+            orders = star(rng, swap_walk(rng, alts, n - 1), m, 1)[:n]
+            tag = "walk+1"
+        elif kind == 1:
+            orders = star(rng, swap_walk(rng, alts, max(2, n - 2)), m, 2)[:n]
+            tag = "star"
+        elif kind == 2:
+            # orders a few adjacent swaps away from a common base order
+            base = rand_perm(rng, alts)
+            orders = [base]
+            for _ in range(40):
+                if len(orders) >= n:
+                    break
+                o = list(base)
+                for _ in range(rng.randint(1, 3)):
+                    a = rng.randrange(m - 1)
+                    o[a], o[a + 1] = o[a + 1], o[a]
+                if o not in orders:
+                    orders.append(o)
+            tag = "near"
+        else:
+            orders = swap_walk(rng, alts, n)
+            tag = "walk"
+        orders = [list(o) for o in orders]
+        if i % 3 == 0:
+            rng.shuffle(orders)
+        elif i % 3 == 1:
+            orders = orders[::-1]
+        out.append(mk(alts, orders, mults(rng, len(orders), i % 2 == 0), gen=tag, lt=1))
     # ---- large planted single-crossing profiles: witness check at full size
     nlarge = 60 if quick else 500
     for i in range(nlarge):
@@ -255,6 +406,9 @@ def generate(tier, seed):
         flags = [flags[j] for j in idx]
         out.append(case("c04.core", [alts, orders, mults(rng, len(orders), True), S, flags],
                         gen="neg-core", large=1, n=len(orders), m=m))
+    for k, cs_ in enumerate(out):
+        if cs_["tags"].get("gen") or k % 8 == 0:
+            cs_["tags"]["helper"] = 1
     return out
 
 
@@ -276,58 +430,82 @@ def impl(c):
         seq = [[int(a) for a in o] for o in seq]
     else:
         seq = []
-    cs = -1
-    if len(orders) <= CONFLICT_IMPL_MAX:
-        inst2 = ordinal_instance([(strict(o), mu) for o, mu in zip(orders, mult)], data_type="soc", alts=alts)
-        cv = SCm.is_single_crossing_conflict_sets(inst2)
-        if not isinstance(cv, bool):
-            return {"crash": "is_single_crossing_conflict_sets returned %r" % (cv,)}
-        cs = int(cv)
-    return [int(verdict), seq, cs]
+    inst2 = ordinal_instance([(strict(o), mu) for o, mu in zip(orders, mult)], data_type="soc", alts=alts)
+    cv = SCm.is_single_crossing_conflict_sets(inst2)
+    if not isinstance(cv, bool):
+        return {"crash": "is_single_crossing_conflict_sets returned %r" % (cv,)}
+    cs = int(cv)
+    # the private verification pass on the stored order: measured only (not an observable of the property; a
+    # missing / changed helper is never an alarm)
+    oc = -1
+    if c["tags"].get("helper"):
+        fn = getattr(SCm, "_is_ordered_profile_single_crossing", None)
+        if fn is not None:
+            try:
+                hv = fn([tuple(o) for o in orders])
+                if isinstance(hv, bool):
+                    oc = int(hv)
+            except Exception:
+                oc = -1
+    return [int(verdict), seq, cs, oc]
+
+
+def _plan(c, r):
+    """named oracle requests for a case (the judge and stats address the answers by name)"""
+    pl = c["payload"]
+    alts, orders = pl[0], pl[1]
+    plan = []
+    # reference verdict
+    if c["op"] == "c04.core":
+        plan.append(("core", "c04.core", [alts, orders, pl[3], pl[4]]))
+    elif len(orders) <= BRUTE_MAX_N:
+        plan.append(("decide", "c04.decide", [alts, orders]))
+    # second reference (polynomial, proved equivalent): the only one for n > 7, else a cross-check of the model
+    plan.append(("cdecide", "c04.cdecide", [alts, orders]))
+    # witness
+    if isinstance(r, list) and r[0] == 1:
+        plan.append(("check", "c04.check", [alts, orders, r[1]]))
+    # mirror of the verification pass vs the sequence checker on the stored order (theorem ordered_check_correct)
+    if c["tags"].get("helper"):
+        plan.append(("ordered", "c04.ordered", [orders]))
+        plan.append(("seqcheck", "c04.seqcheck", [alts, orders]))
+    return plan
 
 
 def oracle_requests(c, r):
-    pl = c["payload"]
-    alts, orders = pl[0], pl[1]
-    reqs = []
-    # reference verdict
-    if c["op"] == "c04.core":
-        reqs.append(("c04.core", [alts, orders, pl[3], pl[4]]))
-    elif len(orders) <= BRUTE_MAX_N:
-        reqs.append(("c04.decide", [alts, orders]))
-    else:
-        reqs.append(("c04.cdecide", [alts, orders]))
-    # second reference (polynomial, proved equivalent) — cross-check of the extracted model itself
-    reqs.append(("c04.cdecide", [alts, orders]))
-    # witness
-    if isinstance(r, list) and r[0] == 1:
-        reqs.append(("c04.check", [alts, orders, r[1]]))
-    return reqs
+    return [(op, payload) for _, op, payload in _plan(c, r)]
+
+
+def _named(c, r, mres):
+    return {k: v for (k, _, _), v in zip(_plan(c, r), mres)}
 
 
 def judge(c, r, mres):
-    ref = mres[0]
-    cref = mres[1]
+    m = _named(c, r, mres)
+    cref = m["cdecide"]
     if c["op"] == "c04.core":
-        if ref != 1:
+        if m["core"] != 1:
             return {"kind": "broken-correspondence",
                     "reason": "generator error: the embedded core is not refuted by the model"}
         expected = 0
     else:
-        expected = ref
+        expected = m.get("decide", cref)
     if cref != expected:
         return {"kind": "broken-correspondence",
                 "reason": "the two proved references disagree (decide/core says SC=%d, cdecide %d)" % (expected, cref)}
-    verdict, seq, cs = r
+    if "ordered" in m and m["ordered"] != m["seqcheck"]:
+        return {"kind": "broken-correspondence",
+                "reason": "model: ordered_check and sc_seq_check disagree on the stored order (ordered_check_correct)"}
+    verdict, seq, cs = r[0], r[1], r[2]
     if verdict != expected:
         return ("is_single_crossing answers %s, the reference (theorem sc_decide_correct / "
                 "sc_conflict_decide_correct / sc_core_refutes_sound) says %s" % (bool(verdict), bool(expected)))
     if verdict == 1:
-        if mres[2] != 1:
+        if m["check"] != 1:
             return ("is_single_crossing answers True but the returned sequence is rejected by the verified checker "
                     "(sc_witness_check_correct): it must contain every distinct order exactly once and let every "
                     "pair switch at most once; sequence = %r" % (seq,))
-    if cs != -1 and cs != expected:
+    if cs != expected:
         return ("is_single_crossing_conflict_sets answers %s, the reference says %s" % (bool(cs), bool(expected)))
     return None
 
@@ -347,8 +525,20 @@ def stats(c, r, m):
     path = "n<m" if n < mm else "n>=m"
     lab = [f"verdict {v}", f"path {path} {v}", f"n={_bucket(n)}", f"m={mm if mm <= 6 else '>6'}",
            "gen " + str(c["tags"].get("gen", "exhaustive" if c["tags"].get("exh") else "sampled-m4"))]
-    if isinstance(r, list) and r[2] != -1:
+    g = c["tags"].get("gen")
+    if g in ("chain-mid", "switchback", "star", "walk+1", "neg-core", "near"):
+        lab.append(f"gen {g} {v} {path}")
+    if g == "chain-mid":
+        lab.append("chain-mid first stored %s, %s" % ("in the middle" if c["tags"].get("first_mid") else "at an end", path))
+        lab.append("chain-mid tails " + ("equal" if len(set(c["tags"]["tails"].split("/"))) == 1 else "different"))
+    if c["tags"].get("storage") == "all":
+        lab.append("every storage order, m=%d n=%d" % (mm, n))
+    if isinstance(r, list):
         lab.append("conflict_sets compared")
+        if r[3] != -1:
+            mm_ = _named(c, r, m)
+            lab.append("info: _is_ordered_profile_single_crossing(stored order) %s sc_seq_check [%s]"
+                       % ("==" if r[3] == mm_.get("seqcheck") else "!=", "accepted" if mm_.get("seqcheck") else "rejected"))
     if any(x > 1 for x in pl[2]):
         lab.append("multiplicities > 1")
     return lab
